@@ -15,6 +15,9 @@ ENG = None
 
 def check_binding(e, f, backend, sql, values, info):
     """the C01 assertions on one (sql, values) pair; sql: concrete code points, values: list of Value Adts"""
+    if any(not isinstance(c, int) for c in sql):
+        # a value term inside the text of build(): a value given to a rendered clause was written into the SQL instead of being bound
+        e.check(False, 'build() wrote a value into the SQL text instead of binding it   [%s]' % ''.join(chr(c) if isinstance(c, int) else '<value>' for c in sql), info)
     s = ''.join(chr(c) for c in sql)
     ph = scan_placeholders(sql, backend)
     e.check(len(ph) == len(values), '%d placeholders outside quoted text but %d bound values   [%s]' % (len(ph), len(values), s), info)
